@@ -2,8 +2,11 @@
 from __future__ import annotations
 
 import importlib
+import logging
 import os
 import sys
+
+logging.getLogger("sqlglot").setLevel(logging.ERROR)
 
 
 def load_fakesnow(repo):
